@@ -277,3 +277,15 @@ def m_default_project(n_explicit: int, n_fallback: int, e0: int, e1: int) -> boo
     elif n_fallback > 0:
         ok = ok and names[0] == NAMES[order[-1 - (n_fallback - 1)]]
     return R(ok)
+
+
+def x_split_vs_runtime(t: str) -> bool:
+    """the repository's own split (used to read option strings on Windows) agrees with the MS C
+    runtime rules on every argument text, e.g. a quoted section followed by more characters of
+    the same argument ("a b"c); texts containing "" are left out (the runtime's doubled-quote
+    rule inside quotes is a documented extension that split does not claim)
+    pre: len(t) == N and no_ctl(t) and '""' not in t
+    post: _
+    """
+    line = 'prog ' + t + ' z'
+    return R(wshell.split(line) == rmsvcrt.argv(line))
